@@ -21,11 +21,18 @@ def run(tier, seed, verdict):
             a.append(["seed=%d" % (seed * 100 + 30 + i), "victim=%d" % v, "mode=sor", "iters=%d" % (n // 2)])
         for i, v in enumerate((0, 351, 352, 353, 354)[: (2 if quick else 5)]):
             a.append(["seed=%d" % (seed * 100 + 40 + i), "victim=%d" % v, "mode=canary", "iters=%d" % n])
+        # create_basic_sender (safe / unsafe callbacks, stop handler, stop requested from inside the operation's own handlers)
+        a.append(["seed=%d" % (seed * 100 + 50), "victim=0", "mode=basic", "iters=%d" % n, "fic=0"])
+        if variant.startswith("asan"):
+            a.append(["seed=%d" % (seed * 100 + 51), "victim=0", "mode=basic", "iters=%d" % n, "fic=1"])
+            a.append(["seed=%d" % (seed * 100 + 52), "victim=0", "mode=basic", "iters=%d" % n, "fic=2"])
         mt_check.run_mt("C19", "cancelrace", variant, a, verdict, res, timeout=1800)
     st = res.stats
     need = ["cancellable_outcome_completer_thread_won", "cancellable_outcome_done", "cancellable_outcome_stop_hook_ran",
             "cancellable_stops_early_outcome_stop_instead_of_start", "cancellable_stop_concurrent_with_start",
             "detach_outcome_detached_done", "detach_outcome_natural", "stop_on_request_rounds",
+            "basic_outcome_value", "basic_outcome_done", "basic_stop_requested_from_own_handler",
+            "basic_late_safe_callback_noop", "basic_unsafe_callback_rounds",
             "canary_outcome_guard_alive", "canary_outcome_guard_dead", "canary_outcome_destructor_started_inside_guard"]
     missing = [k for k in need if not st.get(k)]
     core.require_observed(verdict, missing, "cancel-race stress")
